@@ -12,7 +12,7 @@ for d in sorted(glob.glob(os.path.join(VERIF, "seeded", "*"))):
     n += 1
     own = m["property"] in m["detected_by"]
     rows.append(f"| {os.path.basename(d)} | {m['needs_to_manifest']} | {', '.join(m['detected_by']) or 'NOT DETECTED'}"
-                f"{'' if own else ' (own check: no)'} |")
+                f"{'' if own else ' (own check: no)'}{' - ' + m['note'] if m.get('note') else ''} |")
 p = os.path.join(VERIF, "DESIGN.md")
 s = open(p).read()
 a, b = "<!-- SEEDED-TABLE-BEGIN -->", "<!-- SEEDED-TABLE-END -->"
